@@ -53,6 +53,10 @@ def getitem(rows, idx):
     """returns expected rows: list (per selected row) of lists of elements"""
     if isinstance(idx, tuple):
         r, c = idx
+        if isinstance(r, np.ndarray) and r.ndim == 0:
+            r = int(r)
+        if isinstance(c, np.ndarray) and c.ndim == 0:
+            c = int(c)
         rlist = not isinstance(r, (int, np.integer, slice))
         clist = not isinstance(c, (int, np.integer, slice))
         if rlist and clist:
